@@ -1134,6 +1134,17 @@ func allocPlan(tier string) []Unit {
 			units = append(units, Unit{Opts: DefaultOptions(), Mon: mon, Tag: "single-" + sig, History: []Letter{one(sig, 1, 1, it)}},
 				Unit{Opts: DefaultOptions(), Mon: mon, Tag: "single-" + sig, History: []Letter{alpha[10], one(sig, 2, 3, it, it)}})
 		}
+		// every span / attribute ordering over requests whose containers repeat non-adjacently
+		// (a sorter must order its own copy, never the caller's request)
+		for sp := 0; sp < 7; sp++ {
+			for a := 0; a < 5; a++ {
+				o := DefaultOptions()
+				o.Span, o.Attrs16, o.Attrs32 = sp, a%4, a
+				lay := Letter{Sig: sig, Groups: []Group{{R: 2, Scopes: []Scope{{S: 3, Items: []int{2, 1}}, {S: 1, Items: []int{0}}, {S: 3, Items: []int{1}}}}, {R: 1, Scopes: []Scope{{S: 1, Items: []int{1}}}},
+					{R: 2, Scopes: []Scope{{S: 1, Items: []int{2}}}}, {R: 1, Scopes: []Scope{{S: 3, Items: []int{0, 2}}}}}}
+				units = append(units, Unit{Opts: o, Mon: mon, Tag: "orderings-" + sig, History: []Letter{lay, alpha[10], lay}})
+			}
+		}
 		// error paths: a refused batch in the middle of a history
 		after := one(sig, 1, 1, 1, 0)
 		units = append(units, Unit{Opts: DefaultOptions(), Mon: mon, Tag: "error-path", History: []Letter{after, {Sig: sig, Big: &Big{Kind: "resources", N: 65537}}, after}})
